@@ -17,7 +17,7 @@ CLAIMS = {
          "operands is rustc's.", "§4 C01"),
  "C02": ("field-effect analysis over MIR + structural HIR rules",
          "Decides necessary structural conditions of the fixed point: every context/segment field a pass mutates is reset for the next pass or tabled persistent; "
-         "changed, newly filled and first-defined symbols force another pass, and whether a value changed is decided by `!=` or by a comparator that does not stop at the kind of value; the only successful loop exit requires no errors and nothing undefined; all program-visible addresses "
+         "changed, newly filled and first-defined symbols force another pass, and whether a value changed is decided by `!=` or by a comparator that does not stop at the kind of value; the only successful loop exit requires no errors and nothing undefined, and is tested after the segment symbols of the pass were registered; a defined segment replaces nothing that was emitted; all program-visible addresses "
          "(labels, block symbols, `*`, source map) live in the target address space and `* =` converts before setting the physical pc. Convergence and values on "
          "concrete programs are not decided.", "§4 C02"),
  "C03": ("table agreement parser ↔ AST ↔ printer ↔ evaluator ↔ documentation (typed HIR)",
@@ -27,7 +27,7 @@ CLAIMS = {
  "C04": ("dominance on MIR CFG + type-directed discard detection on HIR + who-may-write table",
          "Shows for the build command that every file-creating or writing call is dominated by the no-error branches of parse and codegen and by the Ok continuation of "
          "merge_segments, that no other function may create files, that every error diagnostic built in the core carries a label unless tabled, that the failure exit "
-         "status is a non-zero constant on every path, that no Result<_, Diagnostics> is thrown away unreported anywhere in non-test code, that the path rejecting an out-of-range branch still emits the instruction (so the error is reported at the branch), and that every push onto the import stack, the scope path and the macro depth meets its pop on every path to a return, error exits included (so an error leaves nothing behind for the next pass).", "§4 C04"),
+         "status is a non-zero constant on every path, that no Result<_, Diagnostics> is thrown away unreported anywhere in non-test code, that the path rejecting an out-of-range branch still emits the instruction (so the error is reported at the branch), and that every push onto the import stack, the scope path and the macro depth meets its pop on every path to a return, error exits included (so an error leaves nothing behind for the next pass); no result kept in a variable is dropped on a path that returns success.", "§4 C04"),
  "C05": ("printer/parser coverage rules on typed HIR + extracted combinator grammar",
          "Every field of every AST variant is printed; every trivia-carrying element a parser closure binds is moved, mapped or has its trivia read; elements bound to `_` "
          "consume constant text or nothing; no bound element reaches the tree only through a lossy Option combinator; swallow-all (`rest`) never occurs without a diagnostic; the file parser is all_consuming; case normalisation never touches "
@@ -36,11 +36,11 @@ CLAIMS = {
          "Every integer the program text controls (literals, evaluated expressions, config values, SymbolData::Number) is followed, field-based and across calls, "
          "to the panicking primitives of the shipped MIR: overflow/division/shift/negation asserts, allocation sizes, indices, loop trip counts; a site is discharged "
          "only by a recognised dominating guard (non-zero switch, constant range check) or a tabled bound. Also: no unwrap on literal conversion, no user string "
-         "into the asserting Identifier constructor, a finite pass bound with a diagnostic, no unwrap/expect on Result<_, Diagnostics> or on I/O results of the command-line path, an import-cycle check in front of the recursive expansion that tests the very value it pushes, a char-boundary test in front of case-insensitive tags that a longer character can fold to, a parser input that is the stored text itself (spans index it), no expression function applied under its own lock. Absence of all panics, "
+         "into the asserting Identifier constructor, a finite pass bound with a diagnostic, no unwrap/expect on Result<_, Diagnostics> or on I/O results of the command-line path, an import-cycle check in front of the recursive expansion that tests the very value it pushes, a char-boundary test in front of case-insensitive tags that a longer character can fold to, a parser input that is the stored text itself (spans index it), no expression function applied under its own lock, chunk / window / step sizes clamped or tested against zero. Absence of all panics, "
          "stack depth and termination of arbitrary programs are not decided.", "§4 C06"),
  "C07": ("structural rules on typed HIR + must-pass-through on MIR",
          "Decides the structural clauses only: polarity of `.if` (true is `!= 0`), iteration domain and `index` binding of `.loop`, positional macro binding after the arity check, "
-         "a macro scope of its own named after the invocation's position (the same in every pass) and entered with the definition's block, balanced scope/dummy-segment push-pop on every path, per-block symbol insertions not allowed to fail silently, the scoped macro lookup on every path (must-call with wrapper summaries), argument evaluation in the invoking scope, and the defining edge as a symbol's parent. "
+         "a macro scope of its own named after the invocation's position (the same in every pass) and entered with the definition's block, balanced scope/dummy-segment push-pop on every path, per-block symbol insertions not allowed to fail silently, the scoped macro lookup on every path (must-call with wrapper summaries), argument evaluation in the invoking scope, the defining edge as a symbol's parent, and `.import *` exporting every child of the import scope. "
          "Equivalence with the hand expansion on concrete programs is not decided.", "§4 C07"),
  "C08": ("grammar extraction from nom combinators: terminal case and trivia-wrapper rules",
          "Every terminal containing a letter is matched case-insensitively; every terminal is reachable only behind a trivia wrapper unless tabled; text kept from a "
